@@ -68,8 +68,15 @@ type leaf struct {
 	sort Sort
 }
 
+// typeKey: identical types must give the same key: `any` and `interface{}` are the same type but print
+// differently depending on how the source spelled them.
 func typeKey(t types.Type) string {
-	return types.TypeString(t, nil)
+	s := types.TypeString(t, nil)
+	if strings.Contains(s, "interface") {
+		s = strings.ReplaceAll(s, "interface {}", "any")
+		s = strings.ReplaceAll(s, "interface{}", "any")
+	}
+	return s
 }
 
 func sortOfBasic(b *types.Basic) Sort {
